@@ -37,22 +37,30 @@ DoCleanup ==
     /\ keyed' = (IF Live THEN NoKey ELSE keyed)
     /\ pos' = (IF Live THEN "b" ELSE pos)
 
-(* cls: valid (z = size class) | null | short | long | badrounds (z = 0) *)
+(* cls: valid (z = size class) | same (the very key bytes that are in force, only when the  *)
+(*      object is keyed in this family) | null | short | long | badrounds (z = 0)            *)
 DoSetKey(cls, z) ==
-    /\ IF Live /\ cls = "valid" THEN keyed' = <<"plain", z>> /\ pos' = "b" ELSE UNCHANGED <<keyed, pos>>
+    /\ cls = "same" => Live /\ keyed[1] = "plain"
+    /\ IF Live /\ cls = "valid" THEN keyed' = <<"plain", z>> /\ pos' = "b"
+       ELSE IF cls = "same" THEN pos' = "b" /\ UNCHANGED keyed
+       ELSE UNCHANGED <<keyed, pos>>
     /\ UNCHANGED life
 
 DoSetTweakedKey(cls, z) ==
-    /\ IF Live /\ cls = "valid" THEN keyed' = <<"tweaked", z>> /\ pos' = "b" ELSE UNCHANGED <<keyed, pos>>
+    /\ cls = "same" => Live /\ keyed[1] = "tweaked"
+    /\ IF Live /\ cls = "valid" THEN keyed' = <<"tweaked", z>> /\ pos' = "b"
+       ELSE IF cls = "same" THEN pos' = "b" /\ UNCHANGED keyed
+       ELSE UNCHANGED <<keyed, pos>>
     /\ UNCHANGED life
 
-(* cls: full | short | null | zero_len | too_long ; on ANY key state (on a plainly keyed  *)
+(* cls: full | same (the value that is already in force, full length) | short | null |   *)
+(*      zero_len | too_long ; on ANY key state (on a plainly keyed  *)
 (* object the code applies its incremental update to the plain schedule: modelled)       *)
 DoSetTweak(cls) ==
-    /\ IF Live /\ cls \in {"full", "short", "null"} THEN pos' = "b" ELSE UNCHANGED pos
+    /\ IF Live /\ cls \in {"full", "same", "short", "null"} THEN pos' = "b" ELSE UNCHANGED pos
     /\ UNCHANGED <<life, keyed>>
 
-(* cls: full | short | empty | null | too_long *)
+(* cls: full | same (the counter value the stream has reached) | short | empty | null | too_long *)
 DoSetCounter(cls) ==
     /\ IF Live /\ cls # "too_long" THEN pos' = "b" ELSE UNCHANGED pos
     /\ UNCHANGED <<life, keyed>>
@@ -74,8 +82,9 @@ Next ==
     \/ \E c \in {"null", "short", "long", "badrounds"} : DoSetKey(c, 0)
     \/ \E z \in KS \cap {1, 2} : DoSetTweakedKey("valid", z)
     \/ \E c \in {"null", "short", "long"} : DoSetTweakedKey(c, 0)
-    \/ \E c \in {"full", "short", "null", "zero_len", "too_long"} : DoSetTweak(c)
+    \/ \E c \in {"full", "same", "short", "null", "zero_len", "too_long"} : DoSetTweak(c)
     \/ \E c \in {"full", "short", "empty", "null", "too_long"} : DoSetCounter(c)
+    \/ DoSetKey("same", 0) \/ DoSetTweakedKey("same", 0)
     \/ \E c \in {"zero", "part", "align", "long_part", "long_align", "batch", "null_in", "null_out"} : DoEncrypt(c)
 
 Spec == Init /\ [][Next]_vars
